@@ -62,6 +62,8 @@ pub enum Policy {
     TopUp,
     Huge,
     Mixed,
+    /// a small piece, then pieces of >= 64 KiB (exact powers of two and off-by-small), then the rest
+    BigPieces,
 }
 
 #[derive(Clone, Debug, Serialize, Deserialize)]
@@ -452,10 +454,16 @@ impl World for ChunkWorld {
         let msg_len = match rng.below(100) {
             0..=3 => 0,
             4..=59 => rng.usize_below(400),
-            60..=94 => rng.usize_below(1101),
-            _ => 5 * 1024 + rng.usize_below(15 * 1024),
+            60..=93 => rng.usize_below(1101),
+            94..=96 => 5 * 1024 + rng.usize_below(15 * 1024),
+            // beyond 64 KiB (and 128 KiB): every 16-bit length or offset has wrapped
+            _ => *rng.pick(&[65_535usize, 65_536, 65_537, 65_600, 70_000, 131_072, 131_074, 140_000]) + rng.usize_below(24),
         };
-        let policy = match rng.below(10) {
+        let big = msg_len >= 65_535;
+        let policy = match if big { 20 + rng.below(4) } else { rng.below(10) } {
+            // big messages: a few very large pieces around small ones, never thousands of events
+            20 => Policy::Huge,
+            21..=23 => Policy::BigPieces,
             0 => Policy::UniformSmall,
             1 => Policy::Dribble,
             2 => Policy::BlockAligned,
@@ -533,6 +541,14 @@ impl World for ChunkWorld {
                     _ => fill + b * rng.range(1, 2) as usize + rng.usize_below(3),
                 },
                 Policy::Huge => remaining,
+                Policy::BigPieces => match rng.below(6) {
+                    0 => rng.range(1, 15) as usize,
+                    1 => 65_536,
+                    2 => 65_536 + rng.usize_below(16),
+                    3 => 131_072 + rng.usize_below(4),
+                    4 => fill + 65_536,
+                    _ => remaining,
+                },
                 Policy::Mixed => unreachable!(),
             }
         };
